@@ -208,6 +208,14 @@ def run(tier):
         nfiles = 60 if tier == 'quick' else 700
         for p in inputs.corpus_files(VERSION, nfiles, rng, include_repo=(tier == 'thorough')):
             progs.append((inputs.read_text(p), 'stdlib:' + os.path.basename(p)))
+        # the same programs without their final line break (the last statement then has no NEWLINE leaf and its
+        # simple_stmt collapses): every 3rd generated program, and docstring-only / one-line bodies in particular
+        extra = [(t.rstrip('\n'), o + ':no-final-newline') for i, (t, o) in enumerate(progs)
+                 if not o.startswith('stdlib') and (i % 3 == 0 or 'docstring' in o or 'funcdef' in o)]
+        extra += [(t, 'eof-docstring') for t in (
+            '"""mod"""', 'def f():\n    """doc"""', 'def f(): "doc"', 'class E(Exception):\n    """doc"""',
+            'class K:\n    def m(self):\n        "doc"', '"""mod"""  # trailing comment', 'async def f():\n    "doc"')]
+        progs += extra
         traces = []
         skipped = 0
         for text, origin in progs:
